@@ -319,6 +319,16 @@ func valueOperandRooted(fn *ssa.Function, v ssa.Value, depth int) (string, bool)
 // mutating callee classification: index of the argument that is written.
 func mutatedArg(cc *ssa.CallCommon) (int, string) {
 	sc := cc.StaticCallee()
+	if !cc.IsInvoke() {
+		// a method value of a decimal context called right away or later (ctx.Sub stored in a variable,
+		// passed as a parameter): the receiver is bound, the destination is the first argument
+		if _, m, ok := boundCtxMethod(cc.Value); ok {
+			return 0, "apd.Context." + m
+		}
+		if sc == nil && isCtxOpSignature(cc.Signature()) {
+			return 0, "apd.Context.(operation passed as a function value)"
+		}
+	}
 	if sc == nil || sc.Signature.Recv() == nil {
 		return -1, ""
 	}
@@ -348,6 +358,77 @@ func mutatedArg(cc *ssa.CallCommon) (int, string) {
 	return -1, ""
 }
 
+// boundCtxMethod: v is the method value ctx.Op of an apd decimal context (a closure over the bound
+// method wrapper); returns the bound context and the method name.
+func boundCtxMethod(v ssa.Value) (ssa.Value, string, bool) {
+	mc, ok := v.(*ssa.MakeClosure)
+	if !ok || len(mc.Bindings) != 1 {
+		return nil, "", false
+	}
+	f, ok := mc.Fn.(*ssa.Function)
+	if !ok || !strings.HasSuffix(f.Name(), "$bound") {
+		return nil, "", false
+	}
+	t := mc.Bindings[0].Type()
+	if !(typeIs(t, "apd/v2", "Context") || typeIs(t, "apd/v3", "Context") || typeIs(t, "cockroachdb/apd", "Context")) {
+		return nil, "", false
+	}
+	return mc.Bindings[0], strings.TrimSuffix(f.Name(), "$bound"), true
+}
+
+// isCtxOpSignature: func(d, x[, y] *apd.Decimal) (apd.Condition, error) — the shape of every
+// arithmetic method of apd.Context.
+func isCtxOpSignature(sig *types.Signature) bool {
+	if sig == nil || sig.Params().Len() < 2 || sig.Results().Len() != 2 {
+		return false
+	}
+	if !typeIs(sig.Params().At(0).Type(), "", "Decimal") || !typeIs(sig.Results().At(0).Type(), "", "Condition") {
+		return false
+	}
+	return true
+}
+
+// dynInstances: how many distinct context operations flow into the function-valued parameter that fn
+// calls at ci (one instance of the obligation per operation a caller passes).
+func dynInstances(p *Program, fn *ssa.Function, ci ssa.CallInstruction) int {
+	prm, ok := ci.Common().Value.(*ssa.Parameter)
+	if !ok || fn.Pkg == nil {
+		return 1
+	}
+	idx := -1
+	for i, q := range fn.Params {
+		if q == prm {
+			idx = i
+		}
+	}
+	seen := map[string]bool{}
+	for _, g := range pkgFuncs(p.SSA, fn.Pkg) {
+		for _, c2 := range callsIn(g) {
+			if c2.Common().StaticCallee() != fn || idx < 0 || idx >= len(c2.Common().Args) {
+				continue
+			}
+			a := c2.Common().Args[idx]
+			if ct, isCT := a.(*ssa.ChangeType); isCT {
+				a = ct.X
+			}
+			if ctx, m, ok := boundCtxMethod(a); ok {
+				seen[fmt.Sprint(addrRoot(derefLoad(ctx)))+"."+m] = true
+			}
+		}
+	}
+	if len(seen) == 0 {
+		return 1
+	}
+	return len(seen)
+}
+
+func derefLoad(v ssa.Value) ssa.Value {
+	if u, ok := v.(*ssa.UnOp); ok && u.Op == token.MUL {
+		return u.X
+	}
+	return v
+}
+
 func ruleM1(c *Ctx, p *Program, fn *ssa.Function) int {
 	n := 0
 	for _, ci := range callsIn(fn) {
@@ -356,7 +437,11 @@ func ruleM1(c *Ctx, p *Program, fn *ssa.Function) int {
 		if idx < 0 || idx >= len(cc.Args) {
 			continue
 		}
-		n++
+		if cc.StaticCallee() == nil {
+			n += dynInstances(p, fn, ci)
+		} else {
+			n++
+		}
 		key := fmt.Sprintf("%s#%s@%d", fnKeyShort(fn), what, ordinalOf(fn, ci, what))
 		if why, bad := operandRooted(fn, cc.Args[idx], 0); bad {
 			c.Violate("C19.M1", key, p.Pos(ci.Pos()), what+" writes into memory rooted at "+why+": the operation mutates (or shares big.Int storage with) one of its operands", nil)
@@ -398,10 +483,42 @@ func ctxOps(fn *ssa.Function, sp *ssa.Package, seen map[*ssa.Function]bool) map[
 		return out
 	}
 	seen[fn] = true
+	ctxName := func(v ssa.Value) string {
+		switch g := addrRoot(derefLoad(v)).(type) {
+		case *ssa.Global:
+			if g.Pkg == sp {
+				return g.Name()
+			}
+			return g.Pkg.Pkg.Name() + "." + g.Name()
+		case *ssa.Alloc:
+			return "local context " + g.Comment
+		case *ssa.Parameter:
+			return "parameter " + g.Name()
+		}
+		return "?"
+	}
+	// a method value ctx.Op created here is an operation performed here (it is created to be called:
+	// directly, from a variable, or by the helper it is handed to)
+	for _, b := range fn.Blocks {
+		for _, in := range b.Instrs {
+			if mc, isMC := in.(*ssa.MakeClosure); isMC {
+				if ctx, m, ok := boundCtxMethod(mc); ok {
+					out[ctxName(ctx)+"."+m] = true
+				} else if af, isF := mc.Fn.(*ssa.Function); isF && af.Parent() == fn {
+					for k := range ctxOps(af, sp, seen) {
+						out[k] = true
+					}
+				}
+			}
+		}
+	}
 	for _, ci := range callsIn(fn) {
 		cc := ci.Common()
 		sc := cc.StaticCallee()
 		if sc == nil {
+			continue
+		}
+		if _, _, isBound := boundCtxMethod(cc.Value); isBound {
 			continue
 		}
 		if idx, what := mutatedArg(cc); idx == 1 && strings.HasPrefix(what, "apd.Context.") {
